@@ -6,6 +6,7 @@ import ast
 from engine.cfg import CFG, normalise_compare, atoms
 from engine.dataflow import ReachingDefs
 from engine.model import src, stmt_key, dotted
+from engine import pat
 from engine.util import own_nodes, calls_with_nodes, where
 
 RULES = {
@@ -79,7 +80,7 @@ def run(model, rep, tier):
                 rep.check(okk, "R-20.1", mc.qualname, where(mc, n.ast), f"{flg} set exactly under `{want[flg]}`", f"{flg} is not set under `{want[flg]}`", stmt=f"derive {flg}")
     io = model.func(f"{WV}._is_origin")
     t = " ".join(src(io.node).split())
-    rep.check("if self.zone.relativize: return name == dns.name.empty else: return name == self.zone.origin" in t, "R-20.1", io.qualname, where(io, io.node),
+    rep.check(pat.ends_with(io.node, "if self.zone.relativize:\n    return name == dns.name.empty\nelse:\n    return name == self.zone.origin"), "R-20.1", io.qualname, where(io, io.node),
               "_is_origin compares with empty (relativized) or the zone origin", "_is_origin no longer compares with (empty | origin)", stmt="is-origin")
 
     # ---------------------------------------------------------------- R-20.2
